@@ -51,6 +51,6 @@ PROPS = {
     'C15': dict(quick=dict(profiles=[seq('C15', 160, 40)]), thorough=dict(profiles=[seq('C15', 3200, 100)])),
     'C16': dict(quick=dict(profiles=[seq('C16', 160, 40)]), thorough=dict(profiles=[seq('C16', 3200, 100)])),
     'C17': dict(quick=dict(profiles=[seq('C17', 160, 40)]), thorough=dict(profiles=[seq('C17', 3200, 100)])),
-    'C19': dict(quick=dict(profiles=[seq('C19', 48, 24)]), thorough=dict(profiles=[seq('C19', 800, 50)])),
+    'C19': dict(quick=dict(profiles=[prof('lock', 1600, 12), seq('C19', 48, 24)]), thorough=dict(profiles=[prof('lock', 40000, 16), seq('C19', 800, 50)])),
     'C20': dict(quick=dict(profiles=[seq('C20', 128, 30)]), thorough=dict(profiles=[seq('C20', 2400, 60)])),
 }
